@@ -354,6 +354,12 @@ nni_sock_find(nni_sock **sockp, uint32_t id)
 	} else {
 		rv = NNG_ECLOSED;
 	}
+#ifdef NNG_VERIF
+	if ((rv != 0) || s->s_closed || s->s_closing) {
+		NNI_VERIF_TRACE("sock", s, "find", "\"id\":%u,\"rv\":%d",
+		    (unsigned) id, rv);
+	}
+#endif
 	nni_mtx_unlock(&sock_lk);
 
 	return (rv);
@@ -637,6 +643,8 @@ nni_sock_open(nni_sock **sockp, const nni_proto *proto)
 		nni_list_append(&sock_list, s);
 		s->s_sock_ops.sock_open(s->s_data);
 		*sockp = s;
+		NNI_VERIF_TRACE("sock", s, "open", "\"id\":%u,\"proto\":%u",
+		    (unsigned) s->s_id, (unsigned) s->s_self_id.p_id);
 	}
 	nni_mtx_unlock(&sock_lk);
 
@@ -681,6 +689,7 @@ sock_shutdown(nni_sock *sock, bool device)
 	}
 	// Mark us closing, so no more EPs or changes can occur.
 	sock->s_closing = true;
+	NNI_VERIF_TRACE("sock", sock, "closing", NULL);
 
 	while ((l = nni_list_first(&sock->s_listeners)) != NULL) {
 		nni_listener_hold(l);
@@ -715,10 +724,12 @@ sock_shutdown(nni_sock *sock, bool device)
 	while ((ctx = nctx) != NULL) {
 		nctx          = nni_list_next(&sock->s_ctxs, ctx);
 		ctx->c_closed = true;
+		NNI_VERIF_TRACE("ctx", ctx, "close", "\"by\":\"sock\"");
 		if (ctx->c_ref == 0) {
 			// No open operations.  So close it.
 			nni_id_remove(&ctx_ids, ctx->c_id);
 			nni_list_remove(&sock->s_ctxs, ctx);
+			NNI_VERIF_TRACE("ctx", ctx, "destroy", NULL);
 			nni_ctx_destroy(ctx);
 		}
 		// If still has a reference count, then wait for last
@@ -741,6 +752,7 @@ sock_shutdown(nni_sock *sock, bool device)
 		nni_cv_wait(&sock->s_cv);
 	}
 	NNI_ASSERT(nni_list_first(&sock->s_pipes) == NULL);
+	NNI_VERIF_TRACE("sock", sock, "shut", NULL);
 	nni_mtx_unlock(&sock->s_mx);
 
 	sock->s_sock_ops.sock_close(sock->s_data);
@@ -784,6 +796,7 @@ sock_close(nni_sock *s, bool device)
 	s->s_closed = true;
 	s->s_device = false;
 	nni_id_remove(&sock_ids, s->s_id);
+	NNI_VERIF_TRACE("sock", s, "closed", NULL);
 
 	// We might have been removed from the list already, e.g. by
 	// nni_sock_closeall.  This is idempotent.
@@ -804,6 +817,7 @@ sock_close(nni_sock *s, bool device)
 	NNI_ASSERT(nni_list_empty(&s->s_pipes));
 	nni_mtx_unlock(&s->s_mx);
 
+	NNI_VERIF_TRACE("sock", s, "destroy", NULL);
 	sock_destroy(s);
 	return (0);
 }
@@ -943,6 +957,8 @@ nni_sock_add_listener(nni_sock *s, nni_listener *l)
 	}
 
 	nni_list_append(&s->s_listeners, l);
+	NNI_VERIF_TRACE("sock", s, "ep_add", "\"ep\":\"%lx\",\"k\":\"l\"",
+	    (unsigned long) (uintptr_t) l);
 
 #ifdef NNG_ENABLE_STATS
 	nni_stat_inc(&s->st_listeners, 1);
@@ -997,6 +1013,8 @@ nni_sock_add_dialer(nni_sock *s, nni_dialer *d)
 	}
 
 	nni_list_append(&s->s_dialers, d);
+	NNI_VERIF_TRACE("sock", s, "ep_add", "\"ep\":\"%lx\",\"k\":\"d\"",
+	    (unsigned long) (uintptr_t) d);
 
 #ifdef NNG_ENABLE_STATS
 	nni_stat_inc(&s->st_dialers, 1);
@@ -1125,6 +1143,12 @@ nni_ctx_find(nni_ctx **cp, uint32_t id)
 	} else {
 		rv = NNG_ECLOSED;
 	}
+#ifdef NNG_VERIF
+	if (rv != 0) {
+		NNI_VERIF_TRACE("ctx", ctx, "find", "\"id\":%u,\"rv\":%d",
+		    (unsigned) id, rv);
+	}
+#endif
 	nni_mtx_unlock(&sock_lk);
 
 	return (rv);
@@ -1166,6 +1190,7 @@ nni_ctx_rele(nni_ctx *ctx)
 	nni_id_remove(&ctx_ids, ctx->c_id);
 	nni_list_remove(&sock->s_ctxs, ctx);
 	nni_cv_wake(&sock->s_close_cv);
+	NNI_VERIF_TRACE("ctx", ctx, "destroy", NULL);
 	nni_mtx_unlock(&sock_lk);
 
 	nni_ctx_destroy(ctx);
@@ -1210,6 +1235,8 @@ nni_ctx_open(nni_ctx **ctxp, nni_sock *sock)
 	sock->s_ctx_ops.ctx_init(ctx->c_data, sock->s_data);
 
 	nni_list_append(&sock->s_ctxs, ctx);
+	NNI_VERIF_TRACE("ctx", ctx, "open", "\"sock\":\"%lx\",\"id\":%u",
+	    (unsigned long) (uintptr_t) sock, (unsigned) ctx->c_id);
 	nni_mtx_unlock(&sock_lk);
 
 	// Paranoia, fixing a possible race in close.  Don't let us
@@ -1232,6 +1259,7 @@ nni_ctx_close(nni_ctx *ctx)
 {
 	nni_mtx_lock(&sock_lk);
 	ctx->c_closed = true;
+	NNI_VERIF_TRACE("ctx", ctx, "close", "\"by\":\"app\"");
 	nni_mtx_unlock(&sock_lk);
 
 	nni_ctx_rele(ctx);
@@ -1329,6 +1357,9 @@ dialer_timer_start_locked(nni_dialer *d)
 			d->d_currtime = d->d_maxrtime;
 		}
 	}
+	NNI_VERIF_TRACE("dialer", d, "timer",
+	    "\"bo\":%d,\"cur\":%d,\"ini\":%d,\"max\":%d", (int) back_off,
+	    (int) d->d_currtime, (int) d->d_inirtime, (int) d->d_maxrtime);
 
 	// To minimize damage from storms, etc., we select a back-off
 	// value randomly, in the range of [0, back_off-1]; this is
@@ -1358,6 +1389,8 @@ dialer_start_pipe(nni_dialer *d, nni_pipe *p)
 	nni_mtx_lock(&s->s_mx);
 	d->d_pipe     = p;
 	d->d_currtime = d->d_inirtime;
+	NNI_VERIF_TRACE("dialer", d, "pipe_set", "\"pipe\":\"%lx\"",
+	    (unsigned long) (uintptr_t) p);
 	nni_mtx_unlock(&s->s_mx);
 
 #ifdef NNG_ENABLE_STATS
@@ -1379,6 +1412,7 @@ dialer_start_pipe(nni_dialer *d, nni_pipe *p)
 			    nni_pipe_sock_id(p),
 			    nni_pipe_peer_str_addr(p, addr));
 		}
+		NNI_VERIF_TRACE("pipe", p, "start", "\"res\":\"rej_cb\"");
 		nni_pipe_rele(p);
 		return;
 	}
@@ -1388,10 +1422,12 @@ dialer_start_pipe(nni_dialer *d, nni_pipe *p)
 		nni_stat_inc(&d->st_reject, 1);
 		nni_stat_inc(&s->st_rejects, 1);
 #endif
+		NNI_VERIF_TRACE("pipe", p, "start", "\"res\":\"rej_proto\"");
 		nni_pipe_close(p);
 		nni_pipe_rele(p);
 		return;
 	}
+	NNI_VERIF_TRACE("pipe", p, "start", "\"res\":\"ok\"");
 #ifdef NNG_ENABLE_STATS
 	nni_stat_set_id(&p->st_root, (int) p->p_id);
 	nni_stat_set_id(&p->st_id, (int) p->p_id);
@@ -1461,6 +1497,7 @@ dialer_reap(void *arg)
 
 	nni_mtx_unlock(&s->s_mx);
 
+	NNI_VERIF_TRACE("dialer", d, "reap", NULL);
 	nni_sock_rele(s);
 
 	nni_dialer_destroy(d);
@@ -1489,6 +1526,7 @@ listener_start_pipe(nni_listener *l, nni_pipe *p)
 		nni_stat_inc(&l->st_reject, 1);
 		nni_stat_inc(&s->st_rejects, 1);
 #endif
+		NNI_VERIF_TRACE("pipe", p, "start", "\"res\":\"rej_cb\"");
 		nni_pipe_rele(p);
 		return;
 	}
@@ -1497,10 +1535,12 @@ listener_start_pipe(nni_listener *l, nni_pipe *p)
 		nni_stat_inc(&l->st_reject, 1);
 		nni_stat_inc(&s->st_rejects, 1);
 #endif
+		NNI_VERIF_TRACE("pipe", p, "start", "\"res\":\"rej_proto\"");
 		nni_pipe_close(p);
 		nni_pipe_rele(p);
 		return;
 	}
+	NNI_VERIF_TRACE("pipe", p, "start", "\"res\":\"ok\"");
 #ifdef NNG_ENABLE_STATS
 	nni_stat_set_id(&p->st_root, (int) p->p_id);
 	nni_stat_set_id(&p->st_id, (int) p->p_id);
@@ -1574,6 +1614,7 @@ listener_reap(void *arg)
 	nni_list_node_remove(&l->l_node);
 	nni_mtx_unlock(&s->s_mx);
 
+	NNI_VERIF_TRACE("listener", l, "reap", NULL);
 	nni_sock_rele(s);
 
 	nni_listener_destroy(l);
@@ -1596,6 +1637,11 @@ nni_pipe_add(nni_pipe *p)
 
 	nni_mtx_lock(&s->s_mx);
 	nni_list_append(&s->s_pipes, p);
+	NNI_VERIF_TRACE("pipe", p, "add",
+	    "\"sock\":\"%lx\",\"ep\":\"%lx\",\"k\":\"%s\"",
+	    (unsigned long) (uintptr_t) s,
+	    (unsigned long) (uintptr_t) (d != NULL ? (void *) d : (void *) l),
+	    d != NULL ? "d" : "l");
 	if (d != NULL) {
 		NNI_ASSERT(l == NULL);
 		nni_list_append(&d->d_pipes, p);
@@ -1658,6 +1704,8 @@ nni_pipe_run_cb(nni_pipe *p, nng_pipe_ev ev)
 			return;
 		}
 		p->p_last_event = ev;
+		NNI_VERIF_TRACE("pipe", p, "ev", "\"ev\":%d,\"cb\":%d", (int) ev,
+		    cb != NULL ? 1 : 0);
 		nng_pipe pid;
 		pid.id = p->p_id;
 		if (cb != NULL) {
@@ -1685,6 +1733,8 @@ nni_pipe_remove(nni_pipe *p)
 #endif
 	nni_list_node_remove(&p->p_sock_node);
 	nni_list_node_remove(&p->p_ep_node);
+	NNI_VERIF_TRACE("pipe", p, "remove", "\"redial\":%d",
+	    ((d != NULL) && (d->d_pipe == p)) ? 1 : 0);
 	if ((d != NULL) && (d->d_pipe == p)) {
 		d->d_pipe = NULL;
 		dialer_timer_start_locked(d); // Kick the timer to redial.
